@@ -34,14 +34,27 @@ ASSUMPTIONS = [
 
 DEADLINE = {"quick": 150, "thorough": 1500}
 
-CLAIMED = False
+CLAIMED = True
 MANIFEST = dict(
     level="exploration",
     engine="enumx",
-    technique="bounded exhaustive enumeration of value sequences, shape concatenations, schemas and byte prefixes with a bit-identity "
-              "round-trip oracle on the real encoders/decoders",
-    text="TODO",
-    note="TODO",
+    technique="bounded exhaustive enumeration of value sequences, shape concatenations, schemas, decode-pool reuse histories and byte "
+              "prefixes with a bit-identity round-trip oracle on the real encoders/decoders (six in-package overlay harnesses)",
+    text="Six seams run on the real code: lib/encoding block coders and lib/compress float coder (default and MLF); record.Marshal/Unmarshal; "
+         "FastMarshalMultiRows/FastUnmarshalMultiRows; engine/immutable ChunkDataBuilder/ColumnBuilder + decodeColumnData with null bitmaps, "
+         "segment split and pre-aggregation, and MsBuilder -> file -> TSSPFile readers; engine WAL.Write -> replayPhysicRecord. Enumerated without "
+         "randomness: every sequence over a boundary alphabet per type up to length 4 (quick) / 5 (thorough), with null as an extra symbol where "
+         "the coder takes nulls; every concatenation of <= 3 (column coders) segments from {const, delta, jitter, raw} x lengths "
+         "{1,7,8,9,239,240,241,1000} in two value variants; every schema of <= 3 typed columns for records and files; every history of <= 3 "
+         "decodes on reused pools; every byte prefix of every row batch and of every WAL image of <= 3 (4) records. Oracle: bit-identical "
+         "values (floats by bits), nulls, order, segment time ranges, trailer/meta-index ranges, count/sum/min/max recomputed directly; "
+         "no error or panic on accepted values; a prefix never delivers a record that is not completely contained in it. Exhaustive within "
+         "these bounds; per-mode hit counters show that every encoder mode was selected.",
+    note="Trusts: Go runtime; the harness' own canonical renderers; snappy/zstd/lz4 libraries are exercised, not modelled. Not covered: "
+         "inputs outside the grammar (only 2 value variants per shape), column-store (detached) file layout, compaction/merge writers "
+         "(EncodeChunkForCompaction, addMin/addMax merge of statistics), remote/obs readers, measurement names > 255 bytes and tag values "
+         "> 65535 bytes (length fields are 8/16 bit), torn writes other than prefixes (no bit flips, no interior holes). WAL pool reuse is "
+         "modelled by a read buffer that last held one of the template records.",
 )
 
 
